@@ -86,6 +86,12 @@ def _count(cls, name):
     setattr(cls, name, wrapper)
 
 
+def _altloc_case(seed):
+    """About one run in five gets alternate locations (a hash, so that every force field is reached)."""
+    import zlib
+    return zlib.crc32(str(seed).encode()) % 5 == 1
+
+
 def cases(tier, seed):
     out = []
 
@@ -111,10 +117,13 @@ def cases(tier, seed):
     n = 200 if tier == "quick" else 28000
     for spec in workload.standard_cases(tier, seed, n, n, opts_fn=opts, frag_share=0.35,
                                         p={"icode_prob": 0.2, "variant_prob": 0.2, "na_prob": 0.15, "waters": [0, 2, 5, 8],
-                                           "damage_prob": 0.25, "dense_prob": 0.8, "crowd_prob": 0.2,
+                                           "damage_prob": 0.25, "alias_prob": 0.2, "dense_prob": 0.8, "crowd_prob": 0.2,
                                            "hydrogens": ["none", "none", "all", "some", "side"]}):
         spec["kind"] = "run"
         spec["extra_atoms"] = spec["seed"] % 5 == 0
+        if _altloc_case(spec["seed"]) and not spec["extra_atoms"]:
+            # these inputs get alternate locations in run_case: combine them with alternate atom names
+            spec["p"] = dict(spec["p"], alias_prob=0.7)
         out.append(spec)
     # long stretches / whole chains of the real proteins
     for spec in workload.long_cases(seed, 7 if tier == "quick" else 420, opts_fn=opts,
@@ -271,6 +280,13 @@ def run_case(spec):
     if spec.get("extra_atoms"):
         m["items"], _added = add_extra_atoms(m["items"], rng)
         m["text"] = pdbfmt.to_text(m["items"])
+    elif spec["kind"] == "run" and _altloc_case(spec["seed"]):
+        # alternate locations on some atoms (first location counts); the ground truth is the file's first model with
+        # the first location of every atom, read back by the column reader
+        from ..gen import pdbtext
+        text, _info = pdbtext.apply(m["items"], [rng.choice(["altloc_interleaved", "altloc_blocked"])], rng)
+        m = dict(m, text=text, items=pdbfmt.first_altloc(pdbfmt.read_first_model(text)))
+        res.count("altloc_inputs")
     opts_list = list(spec["opts"])
     titr_by_ord = None
     if spec["kind"] == "titr":
